@@ -127,9 +127,14 @@ class BiWordFilter(Filter):
         prev_pos = None
         atleastone = False
 
+        single = None
         for token in tokens:
             # Save the original text of this token
             text = token.text
+            if prev_text is None:
+                # Remember the first token in case it turns out to be the
+                # only one (the token object itself is reused by the stream)
+                single = token.copy()
 
             # Save the original position
             positions = token.positions
@@ -163,8 +168,8 @@ class BiWordFilter(Filter):
 
         # If no bi-words were emitted, that is, the token stream only had
         # a single token, then emit that single token.
-        if not atleastone:
-            yield token
+        if not atleastone and single is not None:
+            yield single
 
 
 class ShingleFilter(Filter):
